@@ -1,0 +1,18 @@
+//go:build verif
+
+package limitread
+
+// Contracts checked by /verif (govc). Comment-only file; not part of normal builds.
+
+//@ func (*LimitRead).Read(p) (n, err)
+//@   prop C01
+//@   overflow on
+//@   let limit0 = lr.Limit
+//@   let len0 = len(p)
+//@   requires lr != nil
+//@   requires lr.Limit < 9223372036854775807
+//@   ensures n-range: 0 <= n && n <= len0
+//@   ensures accounting: limit0 >= 0 ==> lr.Limit == limit0 - n
+//@   ensures at-most-limit-plus-one: limit0 >= 0 ==> n <= limit0 + 1
+//@   ensures exceeded-is-error: lr.Limit < 0 ==> err != nil && err != io.EOF
+//@   ensures already-exceeded: limit0 < 0 ==> n == 0 && err != nil && err != io.EOF && lr.Limit == limit0
